@@ -11,7 +11,7 @@
    [collapse_bin], [is_approximate_multiple], [filter_in_phase] are the executable
    model of filtering.py (Verif.C19.Model), tied to the code by Corr.v on this run. *)
 From Coq Require Import List ZArith QArith Qabs Bool Sorted PrimFloat.
-From Verif.C19 Require Import Carrier Model Spec Proofs ProofsArith ProofsPhase ProofsFloat.
+From Verif.C19 Require Import Carrier Model Spec Proofs ProofsArith ProofsPhase ProofsFloat Carrier32 ProofsFloat32.
 Import ListNotations.
 Local Close Scope Q_scope.
 
@@ -100,6 +100,19 @@ Theorem C19_collapse_interval_float : forall (bin : list (float * float)) m low 
   /\ (exists p, In p bin /\ high = next_up (fst p)).
 Proof. exact collapse_interval_float. Qed.
 
+(* binary32 (float32) coordinates (finite), data float64 or float32:
+   [min, succ(max)) with succ the successor IN BINARY32 (Flocq's Bsucc at precision 24):
+   its value, when finite, is the least binary32 number above the maximum *)
+Theorem C19_collapse_interval_float32 : forall (v32 : bool) (bin : list (b32 * float)) m low high,
+  Forall (fun p => fin32 (fst p)) bin ->
+  collapse_bin (S32 v32) bin = Some (m, low, high) ->
+  (forall p, In p bin -> BinarySingleNaN.Bleb low (fst p) = true /\ BinarySingleNaN.Bleb high (fst p) = false)
+  /\ (exists p, In p bin /\ low = fst p)
+  /\ (exists p, In p bin /\ high = BinarySingleNaN.Bsucc (fst p)
+                /\ (BinarySingleNaN.is_finite high = true ->
+                    BinarySingleNaN.B2R high = Ulp.succ Zaux.radix2 fexp32 (BinarySingleNaN.B2R (fst p)))).
+Proof. exact collapse_interval_float32. Qed.
+
 Theorem C19_collapse_interval_int : forall (bin : list (Z * float)) m low high,
   collapse_bin ZF bin = Some (m, low, high) ->
   (forall p, In p bin -> (low <= fst p < high)%Z)
@@ -156,6 +169,18 @@ Example C19_nonvacuous_collapse :
      = Some (Some 2%float, 1%float, 0x1.0000000000001p+1%float).
 Proof. split; vm_compute; reflexivity. Qed.
 
+(* float32: 1.5 and 0.1f; the upper edge is the binary32 successor 0x1.800002p+0, whereas the
+   binary64 successor of 1.5 stored back as float32 is 1.5 itself *)
+Example C19_nonvacuous_collapse_float32 :
+  let bin := [(mk32 13421773 (-27), 1%float); (mk32 3 (-1), 3%float)] in
+  Forall (fun p => fin32 (fst p)) bin
+  /\ match collapse_bin (S32 true) bin with
+     | Some (m, low, high) => (m, to64 low, to64 high)
+     | None => (None, 0%float, 0%float)
+     end = (Some 2%float, 0x1.99999ap-4%float, 0x1.800002p+0%float)
+  /\ b32_same (of64 (next_up (to64 (mk32 3 (-1))))) (mk32 3 (-1)) = true.
+Proof. split; [repeat constructor|split; vm_compute; reflexivity]. Qed.
+
 Example C19_nonvacuous_finite_float : ffin 1%float /\ ffin (-0x1.8p-3)%float /\ ~ ffin infinity.
 Proof. repeat split; try (vm_compute; reflexivity). vm_compute. discriminate. Qed.
 
@@ -176,6 +201,7 @@ Print Assumptions C19_points_unchanged.
 Print Assumptions C19_raises_only_on_drift.
 Print Assumptions C19_collapse_mean_and_interval.
 Print Assumptions C19_collapse_interval_float.
+Print Assumptions C19_collapse_interval_float32.
 Print Assumptions C19_collapse_interval_int.
 Print Assumptions C19_collapse_interval_Q.
 Print Assumptions C19_in_phase_iff.
